@@ -1,0 +1,48 @@
+//go:build verif
+
+package ignore
+
+// Contracts for the text form of the mode enumerations of this package
+// (property C37: "every mode written as text is read back as the same
+// value"). Comment-only file: compiled only under the "verif" build tag,
+// contains no code. The "//@" lines are read by govc.
+//
+// For every supported (named, non-default) value v with documented name N:
+// the marshalling method writes v as exactly the bytes of N and reports no
+// error [written]; UnmarshalText, given exactly the bytes of N, reports no
+// error and stores v [readback]; it accepts nothing but supported values
+// [accepted] and leaves the destination alone when it fails [rejected]. The
+// round trip "UnmarshalText(MarshalText(v)) yields v and no error" is the
+// instance of [readback] for the bytes that [written] describes.
+
+// textis(b, s): the byte slice b spells the string s.
+//@ pred textis(b, s) = len(b) == len(s) && forall i in 0..len(s) :: b[i] == s[i]
+
+//@ func (Syntax).MarshalText
+//@   ensures[written] s == Syntax_SyntaxMutagen ==> result1 == nil && textis(result0, "mutagen")
+//@   ensures[written] s == Syntax_SyntaxDocker ==> result1 == nil && textis(result0, "docker")
+
+//@ func (*Syntax).UnmarshalText
+//@   requires s != nil
+//@   ensures[readback] textis(textBytes, "mutagen") ==> result == nil && deref(s) == Syntax_SyntaxMutagen
+//@   ensures[readback] textis(textBytes, "docker") ==> result == nil && deref(s) == Syntax_SyntaxDocker
+//@   ensures[accepted] result == nil ==> deref(s) == Syntax_SyntaxMutagen || deref(s) == Syntax_SyntaxDocker
+//@   ensures[rejected] result != nil ==> deref(s) == old(deref(s))
+
+//@ func (IgnoreVCSMode).MarshalJSON
+//@   ensures[written] m == IgnoreVCSMode_IgnoreVCSModeIgnore ==> result1 == nil && textis(result0, "true")
+//@   ensures[written] m == IgnoreVCSMode_IgnoreVCSModePropagate ==> result1 == nil && textis(result0, "false")
+
+//@ func (*IgnoreVCSMode).UnmarshalText
+//@   requires m != nil
+//@   ensures[readback] textis(textBytes, "true") ==> result == nil && deref(m) == IgnoreVCSMode_IgnoreVCSModeIgnore
+//@   ensures[readback] textis(textBytes, "false") ==> result == nil && deref(m) == IgnoreVCSMode_IgnoreVCSModePropagate
+//@   ensures[accepted] result == nil ==> deref(m) == IgnoreVCSMode_IgnoreVCSModeIgnore || deref(m) == IgnoreVCSMode_IgnoreVCSModePropagate
+//@   ensures[rejected] result != nil ==> deref(m) == old(deref(m))
+
+//@ func (*IgnoreVCSMode).UnmarshalJSON
+//@   requires m != nil
+//@   ensures[readback] textis(textBytes, "true") ==> result == nil && deref(m) == IgnoreVCSMode_IgnoreVCSModeIgnore
+//@   ensures[readback] textis(textBytes, "false") ==> result == nil && deref(m) == IgnoreVCSMode_IgnoreVCSModePropagate
+//@   ensures[accepted] result == nil ==> deref(m) == IgnoreVCSMode_IgnoreVCSModeIgnore || deref(m) == IgnoreVCSMode_IgnoreVCSModePropagate
+//@   ensures[rejected] result != nil ==> deref(m) == old(deref(m))
